@@ -479,8 +479,11 @@ def run_walks(info, rnds, steps, log, focus=()):
         return mism, cover, "walk evaluation produced %d reports for %d walks" % (len(reports), len(rnds))
     for r, rep in zip(rnds, reports):
         tr = rep.split("#@#TRACE", 1)[1].strip() if "#@#TRACE" in rep else ""
-        for l in [x for x in tr.split(",") if x.strip()]:
-            cover[l.strip()] = cover.get(l.strip(), 0) + 1
+        sched = [x.strip() for x in tr.split(",") if x.strip()]
+        for l in sched:
+            if not l.startswith("~"):
+                k = l.split("/")[0]
+                cover[k] = cover.get(k, 0) + 1
         if "#@#WALKERROR" in rep:
             return mism, cover, rep.split("#@#WALKERROR", 1)[1].split("#@#END")[0].strip()
         for mm in rep.split("#@#MISMATCH")[1:]:
@@ -490,6 +493,10 @@ def run_walks(info, rnds, steps, log, focus=()):
                 if "=" in part:
                     k, v = part.split("=", 1)
                     d[k.strip()] = v.strip()
+            try:
+                d["sched"] = sched[:int(d.get("attempt", "0")) + 1]
+            except ValueError:
+                d["sched"] = []
             mism.append(d)
     return mism, cover, None
 
@@ -504,3 +511,92 @@ def force_recheck():
         for f in os.listdir(CACHE):
             if f.startswith("probe_"):
                 os.remove(os.path.join(CACHE, f))
+
+
+# ---------------------------------------------------------------- validation against the real generated Go (locksvc)
+
+def real_go_locksvc(info, cases, log, num_clients=3):
+    """run the schedules on the REAL generated locksvc archetypes (harness c02) and let the regenerated Go model predict
+    every observed attempt. cases: [{"id", "steps":[{"p","ks"}]}]. -> (n attempts compared, [mismatch dicts], error)"""
+    name = "locksvc"
+    rc, res, err = vlib.run_jsonl("c02", [dict(c, num_clients=num_clients) for c in cases], timeout=600)
+    if rc != 0 or len(res) != len(cases):
+        return 0, [], "harness c02 failed (rc=%d, %d/%d results): %s" % (rc, len(res), len(cases), err[-500:])
+    g = GEN_DIR + "/" + name
+    with GenLock(name):
+        rel = g + "_walkdefs.v"
+        if stale(rel, BASE_DEPS[:4] + ["C02/Walk.v", "C02/Bind_locksvc.v", g + "_go.v", g + "_tla.v", g + "_trees.v"]):
+            rc, o, e = coqc(rel)
+            log.append("coqc %s rc=%d" % (rel, rc))
+            if rc != 0:
+                return 0, [], "walk tables of locksvc do not compile: " + (o + e)[-500:]
+    body = ["From PGV Require Import C02.Lang C02.Sem C02.Show C02.Walk %s.%s_walkdefs.\nOpen Scope string_scope.\nOpen Scope Z_scope.\n" % (GEN_NAME, name)]
+    rows, meta, nstate = [], [], 0
+    for r in res:
+        if r.get("err"):
+            return 0, [], "harness c02: " + r["err"]
+        body.append("Definition st%d : gstate := %s.\n" % (nstate, r["init"]))
+        cur = nstate
+        nstate += 1
+        case = [c for c in cases if c["id"] == r["id"]][0]
+        for st, so in zip(case["steps"], r["steps"]):
+            body.append("Definition st%d : gstate := %s.\n" % (nstate, so["post"]))
+            kind = so["outcome"].replace('"', "'")[:60]
+            rows.append('real_step_ok (locksvc_W 0) "%s" "%s" (VNum %d) st%d [%s]%%nat "%s" st%d' % (
+                "Server" if so["p"] == 0 else "client", so["label"], so["self"], cur,
+                "; ".join(str(int(k) % 64) for k in st["ks"]), kind, nstate))
+            meta.append({"case": r["id"], "p": so["p"], "label": so["label"], "outcome": so["outcome"], "ks": st["ks"]})
+            cur = nstate
+            nstate += 1
+    body.append("Definition R := Eval vm_compute in cat [%s].\nPrint R.\n" % ";\n ".join(rows))
+    rc, out, err = vlib.coq_eval("C02_real_%d" % os.getpid(), "".join(body), timeout=900)
+    if rc != 0:
+        return 0, [], "evaluation of the real-Go comparison failed: " + (out + err)[-800:]
+    flat = re.sub(r"\s+", " ", out).replace('""', '"')
+    mism = []
+    for mm in flat.split("#@#REAL")[1:]:
+        mm = mm.split("#@#END")[0]
+        d = {}
+        for part in mm.split("#@#"):
+            if "=" in part:
+                k, v = part.split("=", 1)
+                d[k.strip()] = v.strip()
+        mism.append(d)
+    return len(rows), mism, None
+
+
+def confirm_on_real_go_locksvc(info, m, log, num_clients=3):
+    """replay the attempts of the walk that led to the distinguishing state on the REAL generated Go and compare the
+    real step with both models. -> dict"""
+    steps = []
+    for ent in m.get("sched", []):
+        try:
+            _, selfs, ks = ent.lstrip("~").split("/")
+            steps.append({"p": int(selfs), "ks": [int(x) for x in ks.split(".") if x != ""]})
+        except ValueError:
+            return {"status": "not run: schedule entry not understood: " + ent}
+    if not steps:
+        return {"status": "not run: empty schedule"}
+    rc, res, err = vlib.run_jsonl("c02", [{"id": 0, "num_clients": num_clients, "steps": steps}], timeout=300)
+    if rc != 0 or len(res) != 1 or res[0].get("err"):
+        return {"status": "not run: harness c02 failed: " + (err[-300:] if not res else str(res[0].get("err")))}
+    r = res[0]
+    body = ["From PGV Require Import C02.Lang C02.Sem C02.Show C02.Walk %s.locksvc_walkdefs.\nOpen Scope string_scope.\nOpen Scope Z_scope.\n" % GEN_NAME]
+    pre = r["init"] if len(r["steps"]) == 1 else r["steps"][-2]["post"]
+    so = r["steps"][-1]
+    body.append("Definition pre : gstate := %s.\nDefinition post : gstate := %s.\n" % (pre, so["post"]))
+    args = '(locksvc_W 0) "%s" "%s" (VNum %d) pre [%s]%%nat "%s" post' % (
+        "Server" if so["p"] == 0 else "client", so["label"], so["self"], "; ".join(str(k) for k in steps[-1]["ks"]),
+        so["outcome"].replace('"', "'")[:60])
+    body.append('Definition R := Eval vm_compute in (real_step_ok_with false %s, real_step_ok_with true %s).\nPrint R.\n' % (args, args))
+    rc, out, err = vlib.coq_eval("C02_confirm_%d" % os.getpid(), "".join(body), timeout=600)
+    if rc != 0:
+        return {"status": "not run: comparison did not evaluate: " + (out + err)[-300:]}
+    flat = re.sub(r"\s+", " ", out)
+    mres = re.search(r'R = \("((?:[^"]|"")*)", "((?:[^"]|"")*)"\)', flat)
+    if not mres:
+        return {"status": "not run: comparison output not understood"}
+    go_ok, tla_ok = mres.group(1) == "", mres.group(2) == ""
+    return {"status": "ran", "label_reached": so["label"], "real_outcome": so["outcome"], "real_post_state": so["post"],
+            "real_go_agrees_with_go_model": go_ok, "real_go_agrees_with_tla_model": tla_ok,
+            "confirmed": go_ok and not tla_ok and so["label"] == m.get("label")}
